@@ -151,19 +151,27 @@ def r2(ctx):
                 "walk self.payloads", text_="countValues loop")
     if loops:
         p = text(loops[0].target)
-        rec = leaf = False
-        ifs = [s_ for s_ in loops[0].body if isinstance(s_, ast.If)]
-        if len(ifs) == 1 and len(pat.real_stmts(loops[0].body)) == 1:
-            cj = {(text(t).replace(" ", ""), pol) for t, pol in pat.conjuncts(ifs[0].test)}
-            want = {("recursive", True), ("Payload.contains(%s,Fiber)" % p, True)}
-            bsrc = " ".join(text(s_) for s_ in ifs[0].body).replace(" ", "")
-            rec = cj == want and bsrc in (
-                "count+=Payload.get(%s).countValues()" % p,
-                "count+=%s.countValues()" % p)
-            esrc = " ".join(text(s_) for s_ in ifs[0].orelse).replace(" ", "")
-            leaf = esrc == ("count+=1ifnotPayload.isEmpty(%s,default=self."
-                            "getDefault())else0" % p)
-        if rec and leaf:
+        rets = pat.returns(f)
+        cvar = text(rets[0].value) if len(rets) == 1 else None
+        acts = [(g, st, v) for g, st, v in pat.guarded_actions(ctx, f, loops[0].body)
+                if not (isinstance(st, ast.AugAssign) and text(st.target) == cvar
+                        and isinstance(st.op, ast.Add) and text(v) == "0")]
+        fib = {pat.T("recursive"), pat.T("Payload.contains(%s,Fiber)" % p)}
+        notfib = pat.T("recursive and Payload.contains(%s, Fiber)" % p, False)
+        nonempty = pat.T("Payload.isEmpty(%s, default=self.getDefault())" % p, False)
+        rec = leaf = other = 0
+        for g, st, v in acts:
+            if not (isinstance(st, ast.AugAssign) and text(st.target) == cvar
+                    and isinstance(st.op, ast.Add)):
+                other += 1
+            elif g == fib and text(v).replace(" ", "") in (
+                    "Payload.get(%s).countValues()" % p, "%s.countValues()" % p):
+                rec += 1
+            elif g == {notfib, nonempty} and text(v) == "1":
+                leaf += 1
+            else:
+                other += 1
+        if rec == 1 and leaf == 1 and not other:
             ctx.ok("C12.R2", f, loops[0].body[0], "recurses into fiber payloads, "
                    "counts a leaf iff not empty")
         else:
@@ -194,15 +202,35 @@ def r2(ctx):
                 "self.payloads)", text_="nonEmpty loop")
     else:
         c, p = [text(e) for e in loops[0].target.elts]
-        ifs = [s for s in loops[0].body if isinstance(s, ast.If)]
-        keep = len(ifs) == 1 and len(loops[0].body) == 1 and \
-            text(ifs[0].test).replace(" ", "") == \
-            "notPayload.isEmpty(%s,default=self.getDefault())" % p
-        src = " ".join(text(s) for s in (ifs[0].body if ifs else [])).replace(" ", "")
-        rec = ("payloads.append(%s.nonEmpty())" % p) in src and \
-            ("payloads.append(%s)" % p) in src and ("coords.append(%s)" % c) in src
-        built = any(text(r.value).replace(" ", "") == "self._newFiber(coords,payloads)"
-                    for r in pat.returns(f))
+        built = None
+        for r in pat.returns(f):
+            v = r.value
+            if isinstance(v, ast.Call) and text(v.func) == "self._newFiber" and \
+                    len(v.args) == 2 and all(isinstance(a, ast.Name) for a in v.args):
+                built = (v.args[0].id, v.args[1].id)
+        keep = rec = False
+        if built:
+            cl, pl = built
+            nonempty = pat.T("Payload.isEmpty(%s, default=self.getDefault())" % p, False)
+            isfib = "Payload.contains(%s,Fiber)" % p
+            seen = []
+            stray = 0
+            for g, st, v in pat.guarded_actions(ctx, f, loops[0].body):
+                call = v if isinstance(v, ast.Call) else None
+                fn = text(call.func) if call is not None else ""
+                a0 = text(call.args[0]).replace(" ", "") if call is not None and call.args else ""
+                if fn == cl + ".append" and a0 == c and g - {pat.T(isfib), pat.T(isfib, False)} == {nonempty}:
+                    seen.append("c")
+                elif fn == pl + ".append" and g == {nonempty, pat.T(isfib)} and \
+                        a0 == "%s.nonEmpty()" % p:
+                    seen.append("pf")
+                elif fn == pl + ".append" and g == {nonempty, pat.T(isfib, False)} and a0 == p:
+                    seen.append("pl")
+                else:
+                    stray += 1
+            keep = seen.count("c") in (1, 2) and not stray
+            rec = seen.count("pf") == 1 and seen.count("pl") == 1
+        built = bool(built)
         if keep and rec and built:
             ctx.ok("C12.R2", f, loops[0], "keeps exactly the non-empty elements, "
                    "recurses, builds through _newFiber")
@@ -333,9 +361,9 @@ def r3(ctx):
     o = f.params[1]
     rets = pat.returns(f)
     s = pat.inline(ctx, f, rets[0].value, depth=3).replace(" ", "") if rets else ""
-    a = "self.getRankIds()==%s.getRankIds()" % o
-    b = "self.getRoot()==%s.getRoot()" % o
-    if s in (a + "and" + b, b + "and" + a):
+    got = pat.catoms(ctx, f, rets[0].value) if rets else set()
+    if got == {pat.A("==", "self.getRankIds()", "%s.getRankIds()" % o),
+               pat.A("==", "self.getRoot()", "%s.getRoot()" % o)}:
         ctx.ok("C12.R3", f, rets[0], "tensor equality = rank ids equal and roots equal")
     else:
         ctx.bad("C12.R3", f, f.node, "Tensor.__eq__ is no longer `rank ids equal "
